@@ -29,6 +29,7 @@ HARNESSES = [
 _s = [x for x in seqs('aswBR', 3, minlen=1) if any(c in x for c in 'swB')]
 HARNESSES += [HH(x) for x in _s] + [HH(x, conc=True) for x in _s if len(x) <= 2] + [HH(x, chain=True) for x in _s if len(x) <= 2]
 HARNESSES += [HH(x, tiers=('thorough',)) for x in seqs('abswBR', 4, minlen=4) if any(c in x for c in 'swB')]
+HARNESSES += [HH(x, mainq=True) for x in ('s', 's1', 'w', 'w1', 'B1', 'as', 'a1s1', 'a1w1', 'sas1')]     # SYNC-RETURN through / on the real thread-bound main queue (items run remotely by the main thread)
 # shared with C08: the semaphore kernel under real interleavings - "a wait is satisfied only by a signal" is what the visibility clause for semaphores rests on (a stale kernel wake-up
 # left behind by a timed-out wait lets a later wait return without any signal, i.e. before the producer's write: seeded C05_m4 / C08_m3)
 import importlib.util as _ilu
